@@ -224,13 +224,32 @@ func checkLaunchFailures(c *report.Ctx) {
 		}
 		c.Check("R-ORDER", "L/rapid."+fname+"/launch-failure-records-cause", "a process that fails to launch makes the initialisation fail with a recorded cause (Extension.LaunchError, Runtime.InvalidEntrypoint, or the bootstrap's own error)", ok && n >= 1, fpos(f), n, "failing exits after Exec: %d, each preceded by recording a cause: %v", n, ok)
 	}
-	if f := fn(c, "L/rapid", "agentLaunchError"); f != nil {
-		got := ""
-		for _, call := range an.CallsTo(f, "L/appctx.StoreFirstFatalError") {
-			got, _ = an.ConstString(call.Common().Args[1])
+	// wherever an external agent is moved to LaunchError, Extension.LaunchError is recorded before the function returns
+	{
+		nsites, ok, got := 0, true, ""
+		pos := token.NoPos
+		for _, st := range callSites(c, "L/core.ExternalAgent.LaunchError") {
+			if !strings.HasPrefix(an.FuncName(st.Fn), "L/rapid.") {
+				continue
+			}
+			nsites++
+			pos = an.InstrPos(st.Call)
+			rec := func(in ssa.Instruction) bool {
+				call, isCall := in.(ssa.CallInstruction)
+				if !isCall || !an.IsCallTo(in, "L/appctx.StoreFirstFatalError") || len(call.Common().Args) < 2 {
+					return false
+				}
+				s, _ := an.ConstString(call.Common().Args[1])
+				if s != "" {
+					got = s
+				}
+				return s == "Extension.LaunchError"
+			}
+			if returnReachableAfter(st.Call, rec) {
+				ok = false
+			}
 		}
-		le := len(an.CallsTo(f, "L/core.ExternalAgent.LaunchError")) == 1
-		c.Check("R-CONST", an.FuncName(f)+"/records", "a launch error moves the agent to LaunchError and records Extension.LaunchError", got == "Extension.LaunchError" && le, fpos(f), 2, "%q", got)
+		c.Check("R-CONST", "L/rapid.agentLaunchError/records", "a launch error moves the agent to LaunchError and records Extension.LaunchError", ok && nsites >= 1, pos, nsites, "LaunchError transitions in the init flow: %d, each followed by recording %q: %v", nsites, got, ok)
 	}
 	if f := fn(c, "L/rapid", "doRuntimeBootstrap"); f != nil {
 		ord := an.NewOrder(f, func(in ssa.Instruction) uint64 {
